@@ -12,7 +12,7 @@ PA = list("ab*?[]!^-\\(|)@+.") + ["\n"]            # pattern alphabet of the str
 MA = list("ab*?[]!-\\(|)@+") + ["\n"]              # pattern alphabet of the engine tie
 WIDE = PA + list("AB:{}$&~,0z'\"#/ =<") + ["é", "日", "\t"]
 CLASSES = ["[:alpha:]", "[:digit:]", "[:upper:]", "[:lower:]", "[:space:]", "[:punct:]", "[:alnum:]", "[:foo:]"]
-FRAGS = ["*", "?", "[ab]", "[!a]", "[a-b]", "[]a]", "[!]]", "[a-]", "[[:alpha:]]", "[[:upper:]]", "@(a|b)", "?(a)", "*(ab)",
+FRAGS = ["[a-a]", "[b-a]", "[!b-a]", "[a-b-]", "[\\]a]", "[a\\-b]", "*", "?", "[ab]", "[!a]", "[a-b]", "[]a]", "[!]]", "[a-]", "[[:alpha:]]", "[[:upper:]]", "@(a|b)", "?(a)", "*(ab)",
          "+(a|b)", "!(a)", "!(a|ab)", "!(*)", "@(a|!(b))", "+(?)", "*(a|)", "\\*", "\\[", "\\a", "a", "b", "ab", "A", "é", "\n", ".", "]", "-"]
 
 CLAUSES = {
@@ -24,7 +24,7 @@ CLAUSES = {
     "bracket_regex_set_operator": "--, && or ~~ inside a bracket expression are set operators of the regex crate, not members",
     "cond_extglob_always_on": "[[ s == p ]] must treat p as an extglob pattern even when shopt extglob is off (bash forces it inside [[ ]]); brush follows the option",
     "named_class_ascii_only": "named classes such as [[:alpha:]] are ASCII-only in the regex crate; bash in a UTF-8 locale classifies multi-byte characters too",
-    "regex_engine_repeated_plus_group": "the regex engine answers (X)+.*(X)+ (from +(X)*+(X), same X twice) as if one occurrence of X sufficed",
+    "regex_engine_repeated_plus_group": "the regex engine answers (X)+ Y (X)+ (from +(X)…+(X): same X twice, Y able to match the empty string, e.g. * or ?(a)) as if one occurrence of X sufficed",
 }
 
 
@@ -51,14 +51,16 @@ def group_end(t, i):
 
 
 def repeated_plus_group(regex):
-    """the emitted regex contains (X)+.*(X)+ with the same group text twice (see clause regex_engine_repeated_plus_group)"""
+    """the emitted regex contains the same group text `(X)+` twice (see clause regex_engine_repeated_plus_group)"""
+    seen = set()
     i = regex.find("(")
     while i >= 0:
         e = group_end(regex, i)
-        if e > 0 and regex.startswith("+.*", e):
-            g = regex[i:e] + "+"
-            if regex.startswith(g, e + 3):
+        if e > 0 and regex.startswith("+", e) and not regex.startswith("+?", e):
+            g = regex[i:e]
+            if g in seen:
                 return True
+            seen.add(g)
         i = regex.find("(", i + 1)
     return False
 
@@ -98,6 +100,8 @@ def rand_pattern(rng, lo, hi, alpha):
 def stage_T(ctx):
     n = ctx.size(4, 5)
     pats = all_strs(PA, n)
+    for k in range(1, 4):
+        pats.extend("".join(t) for t in itertools.product(FRAGS, repeat=k))
     rng = ctx.rng
     for _ in range(ctx.size(20000, 300000)):
         pats.append(rand_pattern(rng, 3, 12, WIDE))
@@ -133,12 +137,12 @@ def parse_report(m):
 
 
 def stage_M(ctx):
-    n = ctx.size(4, 5)
+    n = 4
     sl = ctx.size(3, 4)
     salpha = "ab\n]"
     pats = all_strs(MA, ctx.size(3, 4))
     # longer patterns: exhaustive over a token alphabet (tokens are the statement's constructs)
-    TOK = ["a", "b", "*", "?", "[ab]", "[!a]", "[]a]", "@(a|b)", "!(a)", "+(a|ab)", "\\*", "\n"]
+    TOK = ["a", "b", "*", "?", "[ab]", "[!a]", "[a-a]", "[b-a]", "[]a]", "@(a|b)", "!(a)", "+(a|ab)", "\\*", "\n"]
     for k in range(1, n + 1):
         pats.extend("".join(t) for t in itertools.product(TOK, repeat=k))
     rng = ctx.rng
